@@ -246,6 +246,28 @@ impl Rec {
             self.samples.push(s);
         }
     }
+    pub fn to_json(&self) -> J {
+        json!({
+            "evals": self.evals,
+            "nontrivial": self.nontrivial.iter().collect::<Vec<_>>(),
+            "classes": self.classes,
+            "samples": self.samples,
+            "excluded": self.excluded,
+        })
+    }
+    pub fn from_json(j: &J) -> Rec {
+        let mut r = Rec::new();
+        r.evals = j["evals"].as_u64().unwrap_or(0);
+        r.nontrivial = j["nontrivial"].as_array().map(|a| a.iter().filter_map(|x| x.as_u64()).collect()).unwrap_or_default();
+        if let Some(o) = j["classes"].as_object() {
+            r.classes = o.iter().map(|(k, v)| (k.clone(), v.as_u64().unwrap_or(0))).collect();
+        }
+        if let Some(o) = j["excluded"].as_object() {
+            r.excluded = o.iter().map(|(k, v)| (k.clone(), v.as_u64().unwrap_or(0))).collect();
+        }
+        r.samples = j["samples"].as_array().map(|a| a.iter().filter_map(|x| x.as_str().map(String::from)).collect()).unwrap_or_default();
+        r
+    }
     pub fn merge(&mut self, other: Rec) {
         self.evals += other.evals;
         self.nontrivial.extend(other.nontrivial);
